@@ -47,6 +47,43 @@ def pattern_table(F, f, target_suffix):
         tab.setdefault(key, set()).add(fmt)
     return tab
 
+def fn_scope(F, f, prefix, depth=4):
+    """f with the helpers of its module spliced in, plus every closure built in that body (each with its helpers spliced in)"""
+    okf = lambda F_, caller, cp, g: g is not None and g.kind != "closure" and cp.startswith(prefix) and not (mir.has_loop(g) and len(g.blocks) > 60)
+    root = mir.inlined(F, f, depth=depth, ok=okf)
+    out = [root]; seen = set(); work = [root]
+    while work:
+        g = work.pop()
+        for c in mir.closures_in(F, g):
+            if c.path in seen: continue
+            seen.add(c.path)
+            ci = mir.inlined(F, c, depth=depth, ok=okf)
+            out.append(ci); work.append(ci)
+    return out
+
+def pattern_table_paths(F, scope):
+    """{pattern const: set(strftime const)}: on every feasible path, the last string-equality test that held names the pattern,
+    and the constant format handed to chrono's DateTime::format on that path is what it is rendered with.  Shape-independent:
+    a `match`, an if-chain, a lookup helper returning Option<&str> or a per-token closure give the same table."""
+    tab = {}
+    for g in scope:
+        try:
+            sps = mir.sym_paths(g, limit=60000, loop_iterations=True)
+        except mir.TooManyPaths:
+            return None
+        for sp in sps:
+            pat = None
+            for cnd in sp.conds:
+                se = mir.str_eq_cond(cnd)
+                if se and se[2]: pat = se[1]
+            for b, name, args, t in sp.calls:
+                if isinstance(name, str) and name.endswith("::format") and ("chrono::DateTime" in name or "DateTime" in (t[1].get("full") or "")) and len(args) >= 2:
+                    a = args[1]
+                    while isinstance(a, tuple) and a[0] == "call" and a[2] and any(str(a[1]).endswith(x) for x in ("Deref>::deref", "String::as_str", "::as_ref")): a = a[2][0]
+                    if a[0] == "const" and isinstance(a[1], str): tab.setdefault(pat, set()).add(a[1])
+                    else: tab.setdefault(pat, set()).add(("dyn", mir.show(a)[:40]))
+    return tab
+
 def check(F, rep, tier):
     # ---- R17.1 ------------------------------------------------------------------------------------
     gv = F.fn("crate::utils::constants::timestamp_patterns::get_valid_timestamp_patterns")
@@ -70,9 +107,16 @@ def check(F, rep, tier):
     rt = F.fn("crate::version::zerv::utils::timestamp::resolve_timestamp")
     if rep.anchor("R17.2", "resolve_timestamp", rt):
         rep.fn_seen(rt)
-        fmt_calls = [mir.callee(t) for bi, t in rt.calls() if (mir.callee(t) or "") in F.fns and len(t[2]) == 2 and isinstance(mir.const_arg(rt, t[2][1]), str) and "%" in str(mir.const_arg(rt, t[2][1]))]
-        target = fmt_calls[0] if fmt_calls else "::format"
-        tab = pattern_table(F, rt, target.rsplit("::", 1)[-1])
+        rt0 = rt
+        scope = fn_scope(F, rt, "crate::version::zerv::utils::timestamp")
+        rt = scope[0]
+        tab = pattern_table_paths(F, scope)
+        if tab is None:
+            rep.undecided("R17.2", "too-many-paths", "resolve_timestamp has too many paths to enumerate", rt.where()); tab = {}
+        # a dynamic format is legitimate only on the custom ('%...') path, which has no pattern name
+        tab = {k: {x for x in v if isinstance(x, str)} for k, v in tab.items() if k is not None}
+        tab = {k: v for k, v in tab.items() if v}
+        target = "-"
         rep.floor("R17.2", "pattern arms in resolve_timestamp", len([k for k in tab if k]), 16)
         for p in DOCUMENTED:
             fm = tab.get(p)
@@ -86,8 +130,8 @@ def check(F, rep, tier):
             else: rep.bad("R17.2", "pattern-format:" + p, "pattern %s is rendered with %r = %s, the statement requires %s" % (p, fmt, got, WANT[p]), rt.where())
         for k in tab:
             if k and k not in DOCUMENTED: rep.bad("R17.2", "pattern-extra:" + str(k), "resolve_timestamp has an arm for undocumented pattern %r" % k, rt.where())
-        # the formatting helper really formats the DateTime it is given with the given format
-        h = F.fn(target)
+        # (the formatting helper is spliced in: the table above is read at chrono's DateTime::format itself)
+        h = None
         if h is not None:
             rep.fn_seen(h)
             ok = any((mir.callee(t) or "").endswith("::format") and all(o.kind == "param" and o.data == 1 for o in mir.trace_op(h, t[2][0])) and all(o.kind == "param" and o.data == 2 for o in mir.trace_op(h, t[2][1])) for bi, t in h.calls())
